@@ -42,12 +42,12 @@ def pattern(ct):
     return {"FunctionCall": "call", "Symbol": "..." if ct[2] == "Ellipsis" else "sym", "IfExpression": "ifexpr"}.get(ct[1], "x")
 
 
-def lua_of(ct, width_of):
+def lua_of(ct, width_of, pad=""):
     k = ct[0]
-    if k == "Bin": return f"{lua_of(ct[2], width_of)} {BOPSRC[ct[1]]} {lua_of(ct[3], width_of)}"
-    if k == "Un": return UOPSRC[ct[1]] + lua_of(ct[2], width_of)
-    if k == "Par": return "(" + lua_of(ct[1], width_of) + ")"
-    if k == "TA": return lua_of(ct[1], width_of) + " :: number"
+    if k == "Bin": return f"{lua_of(ct[2], width_of, pad)} {BOPSRC[ct[1]]} {lua_of(ct[3], width_of, pad)}"
+    if k == "Un": return UOPSRC[ct[1]] + lua_of(ct[2], width_of, pad)
+    if k == "Par": return "(" + pad + lua_of(ct[1], width_of, pad) + pad + ")"
+    if k == "TA": return lua_of(ct[1], width_of, pad) + " :: number"
     kind, sym, lid = ct[1], ct[2], ct[3]
     w = width_of(lid)
     nm = chr(ord("a") + lid % 26) * max(1, w)
@@ -81,9 +81,9 @@ def replay_tree(ct, entry, fs, release=False):
             continue
         if syn == ["--syntax", "luau"] and re.search(r"'(DoubleLessThan|DoubleGreaterThan|Ampersand|Pipe)'|\('Bin', 'Tilde'|\('Un', 'Tilde'", repr(ct)):
             continue
-        for lens in itertools.chain([None], itertools.product((1, 12, 40), repeat=min(len(ids), 3))):
+        for lens, pad in itertools.chain([(None, ""), (None, " ")], ((l, "") for l in itertools.product((1, 12, 40), repeat=min(len(ids), 3)))):
             wmap = {i: 1 for i in ids} if lens is None else {i: lens[j % len(lens)] for j, i in enumerate(ids)}
-            expr = lua_of(ct, lambda i: wmap[i])
+            expr = lua_of(ct, lambda i: wmap[i], pad)
             src = f"local x = {expr}" + (".k" if prefix else "") + "\n"
             try:
                 ein, _ = luaexpr.parse_local_expr(src)
